@@ -100,7 +100,16 @@ struct NullLogger : TimerLogger
 struct TsSvc : Svc
 {
   std::unique_ptr<TimerService> s;
-  TsSvc() { TimerServiceConfig c; s.reset(new TimerService(c, std::make_shared<NullLogger>())); s->setErrorHandler([](TimerError, const std::string &, int) {}); }
+  // cfgBits: bit0 statistics off, bit1 one epoll event per wait, bit2 detailed logging on (into the null logger)
+  explicit TsSvc(unsigned cfgBits = 0)
+  {
+    TimerServiceConfig c;
+    if (cfgBits & 1) c.enableStatistics = false;
+    if (cfgBits & 2) c.maxEpollEvents = 1;
+    if (cfgBits & 4) c.enableDetailedLogging = true;
+    s.reset(new TimerService(c, std::make_shared<NullLogger>()));
+    s->setErrorHandler([](TimerError, const std::string &, int) {});
+  }
   uint64_t schedule(uint64_t us, std::function<void()> fn) override { return s->scheduleAfter(std::chrono::microseconds(us), std::move(fn)); }
   uint64_t schedulePeriodic(uint64_t us, std::function<void()> fn) override { return s->schedulePeriodic(std::chrono::microseconds(us), std::move(fn)); }
   bool subMillisecond() override { return true; }
@@ -129,7 +138,14 @@ struct PoolSvc : Svc
   std::mutex m;
   std::map<uint64_t, std::pair<TimerService *, uint64_t>> ids; // our id -> (service, its id)
   uint64_t next = 1;
-  PoolSvc(size_t n) { TimerServiceConfig c; p.reset(new TimerServicePool(n, c, std::make_shared<NullLogger>())); }
+  explicit PoolSvc(size_t n, unsigned cfgBits = 0)
+  {
+    TimerServiceConfig c;
+    if (cfgBits & 1) c.enableStatistics = false;
+    if (cfgBits & 2) c.maxEpollEvents = 1;
+    if (cfgBits & 4) c.enableDetailedLogging = true;
+    p.reset(new TimerServicePool(n, c, std::make_shared<NullLogger>()));
+  }
   uint64_t reg(TimerService *s, uint64_t id) { if (!id) return 0; std::lock_guard<std::mutex> g(m); ids[next] = {s, id}; return next++; }
   uint64_t schedule(uint64_t us, std::function<void()> fn) override { auto &s = p->getService(); return reg(&s, s.scheduleAfter(std::chrono::microseconds(us), std::move(fn))); }
   uint64_t schedulePeriodic(uint64_t us, std::function<void()> fn) override { auto &s = p->getLeastLoadedService(); return reg(&s, s.schedulePeriodic(std::chrono::microseconds(us), std::move(fn))); }
@@ -256,8 +272,17 @@ static bool runScenario(uint64_t seed, uint64_t idx, int which)
     spanTicks = 1; for (size_t l = 0; l < levels; l++) spanTicks *= tpw;
     S->svc = new WheelSvc(int(tickMs), tpw, levels, rng.chance(0.3));
   }
-  else if (which == 1) S->svc = new TsSvc();
-  else S->svc = new PoolSvc(size_t(rng.range(1, 4)));
+  unsigned cfgBits = 0;
+  if (which != 0)
+  {
+    // the service's behaviour must not depend on its observability settings: half of the scenarios run with
+    // statistics disabled, some with a one-event epoll batch or with detailed logging
+    if (rng.chance(0.5)) cfgBits |= 1;
+    if (rng.chance(0.25)) cfgBits |= 2;
+    if (rng.chance(0.2)) cfgBits |= 4;
+  }
+  if (which == 1) S->svc = new TsSvc(cfgBits);
+  else if (which == 2) S->svc = new PoolSvc(size_t(rng.range(1, 4)), cfgBits);
   Svc *svc = S->svc;
   // a third of the scenarios run in the SECOND life of the service (stop -> reset -> start after a life that
   // ended with cancelled timers still pending): nothing of the first life may leak into the second
@@ -570,12 +595,14 @@ static bool runScenario(uint64_t seed, uint64_t idx, int which)
   O.obs("timers_with_sub_millisecond_delay", S->subMsTimers.load());
   if (which == 0) { auto *ws = static_cast<WheelSvc *>(svc); if (ws->dispatched.load()) { O.obs("wheel_scenarios_with_dispatcher"); O.obs("wheel_callbacks_through_dispatcher", ws->dispatched.load()); } }
   if (which == 0) { if (S->probeFiredNs.load()) O.obs("wheel_progress_probe_fired"); if (nUnjudgedLagging) O.obs("wheel_unfired_timers_not_judged_tick_thread_lagging", nUnjudgedLagging); }
+  if (cfgBits & 1) O.obs("scenarios_with_statistics_disabled");
+  if (cfgBits & 2) O.obs("scenarios_with_one_event_epoll_batch");
   O.obs("scenarios_" + N); O.obs("timers_valid", nValid); O.obs("timers_fired", nFired); O.obs("cancel_true", nCancelTrue); O.obs("cancel_false", nCancelFalse);
   O.obs("cancel_lost_race_to_fire", cancelLostRace); O.obs("reschedule_true", nReschedTrue); O.obs("periodic_timers", nPeriodic);
   O.obs("discarded_by_shutdown", nDiscarded); O.obs("refused_after_shutdown", nRefused); O.obs("late_schedule_refused", S->lateScheduleRefused.load());
   O.obs(std::string("shutdown_") + (shutdownKind == 0 ? "stop_quiescent" : shutdownKind == 1 ? "drain_quiescent" : shutdownKind == 2 ? "stop_racing" : "drain_racing"));
   char sig[160];
-  snprintf(sig, sizeof sig, "%s tick=%d lv=%zu tpw=%zu sd=%d thr=%d cT=%d cF=%d rs=%d per=%d disc=%d", N.c_str(), int(tickMs), levels, tpw, shutdownKind, nThreads, nCancelTrue ? 1 : 0, cancelLostRace ? 1 : 0, nReschedTrue ? 1 : 0, nPeriodic ? 1 : 0, nDiscarded ? 1 : 0);
+  snprintf(sig, sizeof sig, "%s tick=%d lv=%zu tpw=%zu sd=%d thr=%d cT=%d cF=%d rs=%d per=%d disc=%d cfg=%u", N.c_str(), int(tickMs), levels, tpw, shutdownKind, nThreads, nCancelTrue ? 1 : 0, cancelLostRace ? 1 : 0, nReschedTrue ? 1 : 0, nPeriodic ? 1 : 0, nDiscarded ? 1 : 0, cfgBits);
   O.caseSig(vf::fnv(sig, strlen(sig)));
   if (idx % 16 == 0)
   {
@@ -657,6 +684,7 @@ static bool runLongHandler(uint64_t seed, uint64_t variant)
   std::unique_ptr<TimerServicePool> pool;
   std::unique_ptr<TimingWheel> wheel;
   TimerServiceConfig cfg;
+  if (v & 1) cfg.enableStatistics = false; // odd variants run with statistics disabled
   if (v == 0 || v == 1 || v == 3 || v == 6 || v == 7) { ts.reset(new TimerService(cfg, std::make_shared<NullLogger>())); ts->setErrorHandler([](TimerError, const std::string &, int) {}); }
   else if (v == 2 || v == 9) pool.reset(new TimerServicePool(2, cfg, std::make_shared<NullLogger>()));
   else { wheel.reset(new TimingWheel(std::chrono::milliseconds(2), 16, 2)); wheel->start(); }
